@@ -28,8 +28,10 @@ type Clients struct {
 	// Gate, if set, is consulted before every mutating call: it may park the caller
 	// (scheduling point) and decides the fault for the call.
 	Gate func(ctx context.Context, c *Call)
-	k    *kubeCS
-	f    *furikoCS
+	// ReadGate, if set, may fail a live GET (transient read failures are faults too).
+	ReadGate func(kind Kind, ns, name string) error
+	k        *kubeCS
+	f        *furikoCS
 }
 
 func NewClients(api *API, actor string) *Clients {
@@ -86,6 +88,11 @@ func (p *pods) Create(ctx context.Context, pod *corev1.Pod, _ metav1.CreateOptio
 	return o.(*corev1.Pod), nil
 }
 func (p *pods) Get(ctx context.Context, name string, _ metav1.GetOptions) (*corev1.Pod, error) {
+	if p.c.ReadGate != nil {
+		if err := p.c.ReadGate(KPod, p.ns, name); err != nil {
+			return nil, err
+		}
+	}
 	o, err := p.c.API.GetAs(p.c.Actor, KPod, p.ns, name)
 	if err != nil {
 		return nil, err
@@ -150,6 +157,11 @@ func (j *jobs) Create(ctx context.Context, o *execution.Job, _ metav1.CreateOpti
 	return r.(*execution.Job), nil
 }
 func (j *jobs) Get(ctx context.Context, name string, _ metav1.GetOptions) (*execution.Job, error) {
+	if j.c.ReadGate != nil {
+		if err := j.c.ReadGate(KJob, j.ns, name); err != nil {
+			return nil, err
+		}
+	}
 	r, err := j.c.API.GetAs(j.c.Actor, KJob, j.ns, name)
 	if err != nil {
 		return nil, err
